@@ -162,6 +162,8 @@ def render(nodes, drop_last_label=False):
 
 class C09(PropBase):
     ID = "C09"
+    TIMEOUT_IS_VERDICT = True  # "static_order terminates" is part of the statement
+    RUN_TIMEOUT_S = {"quick": 20.0, "thorough": 60.0}
     QUICK_RUNS = 2500
     THOROUGH_RUNS = 100000
     QUICK_BUDGET_S = 60
